@@ -40,6 +40,7 @@ type Ctx struct {
 	distinct   map[string]struct{}
 	findings   []Finding
 	InfraErr   error
+	lastPhase  time.Time
 }
 
 // Finding is one line of known_findings.txt.
@@ -215,6 +216,9 @@ func (c *Ctx) Report(cs Case) bool {
 	}
 	h := sha256.Sum256([]byte(cs.Summary + fmt.Sprint(cs.Files)))
 	dir := filepath.Join(Root, "replays", c.ID, hex.EncodeToString(h[:6]))
+	if os.Getenv("VERIF_NO_EVIDENCE") != "" {
+		dir = filepath.Join(os.TempDir(), "verif-mutant-replays", c.ID, hex.EncodeToString(h[:6]))
+	}
 	c.mu.Lock()
 	c.violations++
 	n := c.violations
@@ -304,8 +308,12 @@ func (c *Ctx) Finish(level string) int {
 		ev["assumptions"] = []string{}
 	}
 	b, _ := json.MarshalIndent(ev, "", " ")
-	os.MkdirAll(filepath.Join(Root, "evidence"), 0o755)
-	if err := os.WriteFile(filepath.Join(Root, "evidence", c.ID+".json"), append(b, '\n'), 0o644); err != nil {
+	evDir := filepath.Join(Root, "evidence")
+	if os.Getenv("VERIF_NO_EVIDENCE") != "" { // sensitivity runs against a scratch tree
+		evDir = c.Scratch
+	}
+	os.MkdirAll(evDir, 0o755)
+	if err := os.WriteFile(filepath.Join(evDir, c.ID+".json"), append(b, '\n'), 0o644); err != nil {
 		fmt.Fprintf(os.Stderr, "cannot write evidence: %v\n", err)
 		return 2
 	}
@@ -316,6 +324,26 @@ func (c *Ctx) Finish(level string) int {
 	fmt.Printf("%s %s: held on everything explored (evaluations=%v distinct_nontrivial=%d states=%v wall=%.0fs)\n",
 		c.ID, c.Tier, cov["evaluations"], len(c.distinct), cov["states"], time.Since(c.Start).Seconds())
 	return 0
+}
+
+// Phase records the wall time since the previous Phase call under coverage.phases_s.
+func (c *Ctx) Phase(name string) {
+	c.mu.Lock()
+	defer c.mu.Unlock()
+	now := time.Now()
+	if c.lastPhase.IsZero() {
+		c.lastPhase = c.Start
+	}
+	m, _ := c.Cov["phases_s"].(map[string]float64)
+	if m == nil {
+		m = map[string]float64{}
+	}
+	m[name] = float64(int(now.Sub(c.lastPhase).Seconds()*10)) / 10
+	c.Cov["phases_s"] = m
+	c.lastPhase = now
+	if os.Getenv("VERIF_VERBOSE") != "" {
+		fmt.Fprintf(os.Stderr, "[%s] phase %s done in %.1fs\n", c.ID, name, m[name])
+	}
 }
 
 // Infra records an infrastructure failure (exit 2, never a violation).
